@@ -35,3 +35,347 @@ def _shift_by(h):
         h.ensure("rotation", forall(lambda i: Implies(And(i >= 0, i < L),
                                                       eqv(r.at(i), ite(i + n < L, l.at(i + n), l.at(i + n - L))))))
         h.ensure("argument-unmodified", l.length() == L)
+
+
+# ---------------------------------------------------------------- roll / unroll / space_unroll: typestate over ALL call histories
+"""Abstract view of a TDMProgram for the history clauses of C13:
+   form in {rolled, unrolled(k shots), space-unrolled(k shots)}, ORIG = the circuit the user wrote, R0 = the register the
+   user declared.  Representation invariant INV(form):
+     rolled : circuit is ORIG, rolled_circuit is ORIG, both caches None, register == R0 == init_num_subsystems
+     unrolled(k): circuit is the cache, cache built by _unroll_program(k, space=False) from ORIG and _unrolled_shots == k,
+                  register == R0 == init_num_subsystems
+     space(k)   : same with space=True, register == R0 + added, init_num_subsystems == R0 + added, added >= 0
+   Every public operation is called on an ARBITRARY state satisfying INV (symbolic R0, time bins, shots, added modes) and
+   must re-establish INV and its own postcondition; by induction the postconditions hold after every call history.
+   _unroll_program, _add_subsystems, _delete_subsystems are replaced by their contracts (ghost register length)."""
+FORMS = ("rolled", "unrolled", "space")
+
+
+class _GhostRegister:
+    """the register as (length); a slice [start:] is the token ('tail', number of entries it holds)"""
+    def __init__(self, st):
+        self.st = st
+
+    def __getitem__(self, k):
+        # Python slice semantics of register[start:] on a register of length L: a negative start counts from the end
+        # (at most L entries), a start >= 0 - including -0 == 0 - counts from the front
+        assert isinstance(k, slice) and k.stop is None and k.step is None
+        L, st = self.st.reglen, k.start
+        count = ite(st < 0, ite(-st < L, -st, L), ite(st < L, L - st, 0))
+        return ("tail", count)
+
+
+class _St:
+    pass
+
+
+def tdm_state(h, tp, form):
+    g = _St()
+    g.ORIG = ["user-circuit"]
+    g.R0 = h.int("R0", lo=1)
+    g.timebins = h.int("timebins", lo=1)
+    g.locked = bool(h._reg("locked", h.eng.choose(2, "locked")))
+    g.calls, g.errors, g.adds = [], [], 0
+    g.cache, g.cache_key = None, None
+    g.reglen = g.R0
+    fields = dict(N=[g.R0], _concurr_modes=g.R0, _timebins=g.timebins, _spatial_modes=1, locked=g.locked,
+                  rolled_circuit=g.ORIG, circuit=g.ORIG, unrolled_circuit=None, space_unrolled_circuit=None,
+                  _unrolled_shots=None, _num_added_subsystems=0, init_num_subsystems=g.R0, _measured_modes=set())
+    if form != "space":
+        fields["_num_added_subsystems"] = h.int("stale_added")      # not constrained by INV outside the space-unrolled form
+    if form != "rolled":
+        k = h.int("cached_shots", lo=1)
+        g.cache, g.cache_key = ["cached-circuit"], (k, form == "space")
+        fields["_unrolled_shots"] = k
+        fields["circuit"] = g.cache
+        if form == "unrolled":
+            fields["unrolled_circuit"] = g.cache
+        else:
+            added = h.int("added", lo=0)
+            fields["space_unrolled_circuit"] = g.cache
+            fields["_num_added_subsystems"] = added
+            fields["init_num_subsystems"] = g.R0 + added
+            g.reglen = g.R0 + added
+    obj = h.new(tp.TDMProgram, **fields)
+
+    def unroll_program(self, shots, space):
+        # contract of _unroll_program (its body is under contract separately): requires a rolled program
+        if not (self.unrolled_circuit is None and self.space_unrolled_circuit is None) or self.circuit is not g.ORIG:
+            g.errors.append("_unroll_program called on a program that is not rolled")
+        g.calls.append((shots, space))
+        self.rolled_circuit = self.circuit
+        new = ["unrolled-circuit", len(g.calls)]
+        self.circuit = new
+        g.cache, g.cache_key = new, (shots, space)
+        if space:
+            self.space_unrolled_circuit = new
+        else:
+            self.unrolled_circuit = new
+
+    def add(self, n):
+        g.adds += 1
+        h.ensure(f"callee-precondition._add_subsystems#{g.adds}.count>=1", n >= 1)
+        g.reglen = g.reglen + n
+
+    def delete(self, refs):
+        if not (isinstance(refs, tuple) and refs[0] == "tail"):
+            g.errors.append("_delete_subsystems not called with the tail of the register")
+            return
+        g.deleted = refs[1]
+        g.reglen = g.reglen - refs[1]
+    patches = [h.stubbed(tp.TDMProgram, "_unroll_program", unroll_program), h.stubbed(tp.TDMProgram, "_add_subsystems", add),
+               h.stubbed(tp.TDMProgram, "_delete_subsystems", delete),
+               h.stubbed(tp.TDMProgram, "register", property(lambda self: _GhostRegister(g)))]
+    return obj, g, patches
+
+
+def tdm_inv(h, obj, g, tag):
+    """INV of the state reached; the form is read off the caches"""
+    u, s = obj.unrolled_circuit, obj.space_unrolled_circuit
+    h.ensure(f"{tag}inv.no-contract-of-a-callee-violated", not g.errors, why=str(g.errors))
+    h.ensure(f"{tag}inv.rolled_circuit-is-the-user-circuit", obj.rolled_circuit is g.ORIG)
+    h.ensure(f"{tag}inv.at-most-one-cache", u is None or s is None)
+    if u is None and s is None:
+        h.ensure(f"{tag}inv.rolled.circuit-is-the-user-circuit", obj.circuit is g.ORIG)
+    else:
+        c = u if u is not None else s
+        h.ensure(f"{tag}inv.unrolled.circuit-is-the-cache", obj.circuit is c or list(obj.circuit) == list(c))
+        h.ensure(f"{tag}inv.unrolled.cache-was-built-by-the-matching-unrolling", g.cache is not None and (c is g.cache or list(c) == list(g.cache)) and g.cache_key[1] == (s is not None))
+        h.ensure(f"{tag}inv.unrolled.recorded-shots-are-the-shots-of-the-cache", eqv(obj._unrolled_shots, g.cache_key[0]) if obj._unrolled_shots is not None else False)
+    if s is None:
+        h.ensure(f"{tag}inv.register-is-the-declared-register", And(eqv(g.reglen, g.R0), eqv(obj.init_num_subsystems, g.R0)))
+    else:
+        h.ensure(f"{tag}inv.space.register-bookkeeping", And(eqv(g.reglen, g.R0 + obj._num_added_subsystems), eqv(obj.init_num_subsystems, g.R0 + obj._num_added_subsystems), obj._num_added_subsystems >= 0))
+    h.ensure(f"{tag}locked-flag-preserved", obj.locked is g.locked)
+
+
+def _enter(patches):
+    import contextlib
+    st = contextlib.ExitStack()
+    for p in patches:
+        st.enter_context(p)
+    return st
+
+
+@proof("C13", T + ":TDMProgram.roll", name="TDMProgram.roll/from-any-state", native="from native.c13_replay import replay; replay('roll', OBLIGATION, I)")
+def _tdm_roll(h):
+    tp = h.module(T)
+    form = FORMS[h._reg("form", h.eng.choose(3, "form"))]
+    obj, g, patches = tdm_state(h, tp, form)
+    with _enter(patches):
+        out = h.call(obj.roll)
+        h.ensure("no-exception", out.returned)
+        tdm_inv(h, obj, g, "")
+        h.ensure("circuit-restored-exactly", obj.circuit is g.ORIG)
+        h.ensure("register-restored-exactly", eqv(g.reglen, g.R0))
+        h.ensure("program-is-rolled", obj.unrolled_circuit is None and obj.space_unrolled_circuit is None)
+        h.ensure("no-unrolling-performed", g.calls == [])
+
+
+@proof("C13", T + ":TDMProgram.unroll", name="TDMProgram.unroll/from-any-state", native="from native.c13_replay import replay; replay('unroll', OBLIGATION, I)")
+def _tdm_unroll(h):
+    tp = h.module(T)
+    form = FORMS[h._reg("form", h.eng.choose(3, "form"))]
+    obj, g, patches = tdm_state(h, tp, form)
+    shots = h.int("shots", lo=1)
+    before = dict(vars(obj))
+    key0, len0 = g.cache_key, g.reglen
+    with _enter(patches):
+        out = h.call(obj.unroll, shots)
+        tdm_inv(h, obj, g, "")
+        if form == "space":
+            h.ensure("refused-when-space-unrolled", out.raised("ValueError"))
+            h.ensure("refusal-leaves-the-program-as-it-was", obj.circuit is before["circuit"] and obj.space_unrolled_circuit is before["space_unrolled_circuit"] and g.calls == [])
+            h.ensure("refusal-leaves-the-register-as-it-was", eqv(g.reglen, len0))
+        else:
+            h.ensure("no-exception", out.returned)
+            h.ensure("circuit-is-a-register-shift-unrolling", g.cache_key is not None and g.cache_key[1] is False and (obj.circuit is g.cache or list(obj.circuit) == list(g.cache)))
+            if g.cache_key is not None:
+                h.ensure("unrolled-for-the-requested-shots", eqv(g.cache_key[0], shots))
+            h.ensure("unrolled-from-the-user-circuit-at-most-once", len(g.calls) <= 1)
+            h.ensure("register-untouched", eqv(g.reglen, g.R0))
+
+
+@proof("C13", T + ":TDMProgram.space_unroll", name="TDMProgram.space_unroll/from-any-state", native="from native.c13_replay import replay; replay('space_unroll', OBLIGATION, I)")
+def _tdm_space_unroll(h):
+    tp = h.module(T)
+    form = FORMS[h._reg("form", h.eng.choose(3, "form"))]
+    obj, g, patches = tdm_state(h, tp, form)
+    shots = h.int("shots", lo=1)
+    if form == "space":
+        # a cached space-unrolling for the same shots has the register of that unrolling (part of INV for the cache)
+        h.require(Implies(eqv(g.cache_key[0], shots), eqv(obj._num_added_subsystems, ite(g.timebins - 1 > 0, g.timebins - 1, 0))))
+    with _enter(patches):
+        out = h.call(obj.space_unroll, shots)
+        h.ensure("no-exception", out.returned)
+        tdm_inv(h, obj, g, "")
+        h.ensure("circuit-is-a-space-unrolling", g.cache_key is not None and g.cache_key[1] is True and (obj.circuit is g.cache or list(obj.circuit) == list(g.cache)))
+        if g.cache_key is not None:
+            h.ensure("unrolled-for-the-requested-shots", eqv(g.cache_key[0], shots))
+        h.ensure("unrolled-from-the-user-circuit-at-most-once", len(g.calls) <= 1)
+        # one fresh mode per time bin: the loop of one shot needs timebins + (concurrent modes - 1) register entries
+        need = g.timebins + g.R0 - 1
+        h.ensure("register-long-enough-for-one-shot-and-never-shrunk-below-the-declared-one", eqv(g.reglen, ite(need > g.R0, need, g.R0)))
+
+
+# ---------------------------------------------------------------- _unroll_program + apply_op: the emitted loop
+"""Contract of the unrolling itself (the callee of the typestate proofs above).  Program.append is replaced by a recorder;
+the rolled circuit consists of real operations (a gate with a looped parameter, a daggered two-mode gate with a looped
+and a constant parameter, a post-selected measurement with a looped angle) on fixed register positions; the per-time-bin
+parameter arrays hold SYMBOLIC values.  Postcondition, from the property ("the program denotes its explicit loop"): the
+emitted sequence is, for every shot, every time bin t and every rolled command c in order, the command c - same class,
+same inverse flag, same post-selection, constant parameters untouched, every looped parameter replaced by entry t of ITS
+array - applied to the register positions of c after g = shot * timebins + t shifts, where one shift rotates each band
+separately by one (shift='default'), the whole register by k (integer shift k) or the whole register by one
+(space-unrolling: with the register space_unroll allocates nothing ever wraps around, every pulse gets a fresh mode).
+The rolled commands are left untouched and no emitted operation is one of the rolled operation objects.
+Shapes enumerated (bands, shift, 1-3 time bins, 1-2 shots): shape-bounded."""
+OPS_ = "strawberryfields.ops"
+UNROLL_CASES = [
+    # (N, shift, space, register positions of (gate, two-mode gate, measurement))
+    ([1], "default", False, (0, (0, 0), 0)),
+    ([2], "default", False, (1, (0, 1), 0)),
+    ([3], "default", False, (2, (1, 2), 0)),
+    ([1, 2], "default", False, (2, (1, 2), 0)),
+    ([2, 1, 2], "default", False, (4, (0, 3), 3)),
+    ([3], 1, False, (2, (1, 2), 0)),
+    ([3], 2, False, (2, (0, 2), 0)),
+    ([4], -1, False, (3, (1, 2), 0)),
+    ([2], "default", True, (1, (0, 1), 0)),
+    ([3], "default", True, (2, (1, 2), 0)),
+]
+
+
+def _shifted(N, shift, space, R, j, g):
+    """register position j after g shifts (index of the reference found there)"""
+    if space:
+        return j + g                      # no wrap-around within one shot on the register space_unroll allocates
+    if shift == "default":
+        start = 0
+        for nb in N:
+            if start <= j < start + nb:
+                return start + (j - start + g) % nb
+            start += nb
+    return (j + g * shift) % R
+
+
+def _tdm_unroll_body(h, TB=(1, 2, 3), SH=(1, 2)):
+    tp, ops, pu, par = h.module(T), h.module(OPS_), h.module("strawberryfields.program_utils"), h.module("strawberryfields.parameters")
+    N, shift, space, (g1, g2, gm) = UNROLL_CASES[h._reg("case", h.eng.choose(len(UNROLL_CASES), "case"))]
+    tb = TB[h.eng.choose(len(TB), "timebins_idx")]
+    shots = 1 if space else SH[h.eng.choose(len(SH), "shots_idx")]
+    h._reg("timebins", tb)
+    h._reg("shots", shots)
+    if g2[0] == g2[1]:
+        g2 = None
+    R0 = sum(N)
+    R = tb + R0 - 1 if space and tb + R0 - 1 > R0 else R0
+    refs = tuple(pu.RegRef(k) for k in range(R))
+    p0, p1 = par.FreeParameter("p0"), par.FreeParameter("p1")
+    A = [[h.real(f"p{k}_{t}") for t in range(tb)] for k in range(2)]
+    gate = ops.Rgate(p0)
+    two = ops.BSgate(p1, 0.5).H if g2 else None
+    const = two.p[1] if two else None
+    meas = ops.MeasureHomodyne(p0, select=0.25)
+    rolled = [pu.Command(gate, [refs[g1]])] + ([pu.Command(two, [refs[g2[0]], refs[g2[1]]])] if two else []) + [pu.Command(meas, [refs[gm]])]
+    before = [(c, c.op, list(c.op.p), list(c.reg)) for c in rolled]
+    orig = list(rolled)
+    emitted = []
+
+    def append(self, op, reg):
+        emitted.append((op, tuple(r.ind for r in reg)))
+        self.circuit.append(("cmd", len(emitted)))
+    obj = h.new(tp.TDMProgram, N=list(N), _concurr_modes=R0, _timebins=tb, _spatial_modes=len(N), shift=shift, circuit=rolled, rolled_circuit=rolled,
+                unrolled_circuit=None, space_unrolled_circuit=None, _measured_modes=set(), tdm_params=A, loop_vars=[p0, p1], locked=False,
+                _unrolled_shots=shots)
+    with h.stubbed(tp.TDMProgram, "append", append), h.stubbed(tp.TDMProgram, "register", property(lambda self: refs)):
+        out = h.call(obj._unroll_program, shots, space)
+    h.ensure("no-exception", out.returned, bounded_shape=True)
+    if not out.returned:
+        return
+    h.ensure("one-command-per-shot-time-bin-and-rolled-command", len(emitted) == shots * tb * len(orig), bounded_shape=True)
+    k = 0
+    for s_ in range(shots):
+        for t in range(tb):
+            g = s_ * tb + t
+            for c in orig:
+                if k >= len(emitted):
+                    break
+                op, inds = emitted[k]
+                tag = f"shot{s_}.bin{t}.{type(c.op).__name__}"
+                k += 1
+                h.ensure(f"{tag}.same-class-inverse-flag-and-post-selection", type(op) is type(c.op) and getattr(op, "dagger", None) == getattr(c.op, "dagger", None)
+                         and getattr(op, "select", None) == getattr(c.op, "select", None), bounded_shape=True)
+                h.ensure(f"{tag}.a-new-operation-object", all(op is not c2.op for c2 in orig), bounded_shape=True)
+                want = tuple(_shifted(N, shift, space, R, r.ind, g) for r in c.reg)
+                h.ensure(f"{tag}.acts-on-the-register-positions-after-{g}-shifts", inds == want, bounded_shape=True)
+                if c.op is gate or c.op is meas:
+                    h.ensure(f"{tag}.looped-parameter-is-entry-{t}-of-its-array", len(op.p) == len(c.op.p) and op.p[0] is A[0][t], bounded_shape=True)
+                else:
+                    h.ensure(f"{tag}.looped-parameter-is-entry-{t}-of-its-array", len(op.p) == 2 and op.p[0] is A[1][t], bounded_shape=True)
+                    h.ensure(f"{tag}.constant-parameter-untouched", op.p[1] is const or op.p[1] == const, bounded_shape=True)
+    h.ensure("rolled-commands-untouched", all(c.op is o and list(o.p) == p and all(x is y for x, y in zip(o.p, p)) and list(c.reg) == rg for (c, o, p, rg) in before)
+             and obj.rolled_circuit is rolled and list(rolled) == orig, bounded_shape=True)
+    cache = obj.space_unrolled_circuit if space else obj.unrolled_circuit
+    other = obj.unrolled_circuit if space else obj.space_unrolled_circuit
+    h.ensure("cache-of-the-requested-kind-holds-the-emitted-circuit", cache is not None and other is None and list(cache) == list(obj.circuit) and len(obj.circuit) == len(emitted), bounded_shape=True)
+    h.ensure("measured-modes-recorded", set(obj._measured_modes) == {gm}, bounded_shape=True)
+
+
+PROOFS.append(Proof("C13", T + ":TDMProgram._unroll_program", _tdm_unroll_body, name="TDMProgram._unroll_program/emits-the-explicit-loop",
+                    native="from native.c13_replay import replay_unroll; replay_unroll(OBLIGATION, I)"))
+PROOFS.append(Proof("C13", T + ":TDMProgram._unroll_program", lambda h: _tdm_unroll_body(h, (4, 5, 7), (1, 3)),
+                    name="TDMProgram._unroll_program/emits-the-explicit-loop/4-7-time-bins-up-to-3-shots", tier_only="thorough",
+                    native="from native.c13_replay import replay_unroll; replay_unroll(OBLIGATION, I)"))
+
+
+# ---------------------------------------------------------------- reshape_samples / _get_mode_order: arrangement of the outcomes
+"""Precondition = postcondition of the unrolling contract above: the raw outcomes arrive, per register index, in the order
+in which the explicit loop measures (shot by shot, time bin by time bin, band by band; the measured position of band b
+is found, after g shifts of shift='default', at the index given by _shifted).  Every outcome is a SYMBOLIC value.
+Postcondition, from the property: the result has one entry per measured mode, of shape (shots, time bins), and entry
+[shot][time bin] of the band's mode IS the outcome of that pulse (identity of the symbolic value, so a permutation
+of equal-looking numbers cannot hide).  Band layouts, measured positions, 1-4 time bins, 1-2 shots enumerated."""
+RESHAPE_CASES = [([1], [0]), ([2], [0]), ([3], [0]), ([1, 2], [0, 1]), ([1, 2], [0, 2]), ([2, 1], [0, 2]), ([2, 1, 2], [0, 2, 3]), ([3, 2], [1, 3])]
+
+
+def _reshape(h, TB=(1, 2, 3, 4), SH=(1, 2)):
+    tp = h.module(T)
+    N, modes = RESHAPE_CASES[h._reg("case", h.eng.choose(len(RESHAPE_CASES), "case"))]
+    tb = TB[h.eng.choose(len(TB), "timebins_idx")]
+    shots = SH[h.eng.choose(len(SH), "shots_idx")]
+    h._reg("timebins", tb)
+    h._reg("shots", shots)
+    R = sum(N)
+    v = [[[h.real(f"outcome_s{s}_b{b}_t{t}") for t in range(tb)] for b in range(len(N))] for s in range(shots)]
+    raw = {}
+    for s in range(shots):
+        for t in range(tb):
+            for b, m in enumerate(modes):
+                raw.setdefault(_shifted(N, "default", False, R, m, s * tb + t), []).append([v[s][b][t]])
+    snap = {k: [list(x) for x in lst] for k, lst in raw.items()}
+    out = h.call(tp.reshape_samples, raw, list(modes), list(N), tb)
+    h.ensure("no-exception", out.returned, bounded_shape=True)
+    if not out.returned:
+        return
+    res = out.value
+    h.ensure("one-entry-per-measured-mode", sorted(res.keys()) == sorted(modes), bounded_shape=True)
+    for b, m in enumerate(modes):
+        if m not in res:
+            continue
+        arr = res[m]
+        shp = tuple(getattr(arr, "shape", ()))
+        h.ensure(f"band{b}.shape-is-(shots,timebins)", shp == (shots, tb), bounded_shape=True)
+        if shp != (shots, tb):
+            continue
+        for s in range(shots):
+            for t in range(tb):
+                h.ensure(f"band{b}.entry[{s}][{t}]-is-the-outcome-of-that-pulse", arr[s][t] is v[s][b][t], bounded_shape=True)
+    h.ensure("raw-outcomes-untouched", all(len(raw[k]) == len(snap[k]) and all(x[0] is y[0] for x, y in zip(raw[k], snap[k])) for k in snap) and set(raw) == set(snap), bounded_shape=True)
+
+
+PROOFS.append(Proof("C13", T + ":reshape_samples", _reshape, name="reshape_samples/entry-(shot,band,bin)-is-the-outcome-of-that-pulse",
+                    native="from native.c13_replay import replay_reshape; replay_reshape(OBLIGATION, I)"))
+PROOFS.append(Proof("C13", T + ":reshape_samples", lambda h: _reshape(h, (5, 6, 9), (1, 3)),
+                    name="reshape_samples/entry-(shot,band,bin)-is-the-outcome-of-that-pulse/5-9-time-bins-up-to-3-shots", tier_only="thorough",
+                    native="from native.c13_replay import replay_reshape; replay_reshape(OBLIGATION, I)"))
